@@ -57,7 +57,7 @@ func (c13) Gen(r *rand.Rand, tier string, run int) *core.Case {
 	c.Params["share_proxy"] = r.IntN(2)
 	emit := func(n int) {
 		for i := 0; i < n; i++ {
-			c.Ops = append(c.Ops, core.Op{Kind: "emit", Actor: 50, X: int64(r.IntN(2)), Y: int64(r.IntN(4))})
+			c.Ops = append(c.Ops, core.Op{Kind: "emit", Actor: 50, X: int64(r.IntN(3)), Y: int64(r.IntN(4))})
 		}
 	}
 	if c.Batch == "sequential" {
@@ -70,13 +70,13 @@ func (c13) Gen(r *rand.Rand, tier string, run int) *core.Case {
 			k := r.IntN(subs)
 			switch {
 			case !active[k] && r.IntN(3) != 0:
-				c.Ops = append(c.Ops, core.Op{Kind: "sub", Actor: k, X: int64(r.IntN(2)), Y: int64(r.IntN(conns))})
+				c.Ops = append(c.Ops, core.Op{Kind: "sub", Actor: k, X: int64(r.IntN(3)), Y: int64(r.IntN(conns))})
 				active[k] = true
 			case active[k] && r.IntN(2) == 0:
 				c.Ops = append(c.Ops, core.Op{Kind: "cancel", Actor: k})
 				active[k] = false
 			default:
-				c.Ops = append(c.Ops, core.Op{Kind: "emit", Actor: 50, X: int64(r.IntN(2))})
+				c.Ops = append(c.Ops, core.Op{Kind: "emit", Actor: 50, X: int64(r.IntN(3))})
 			}
 			c.Ops = append(c.Ops, core.Op{Kind: "barrier"})
 		}
@@ -85,7 +85,7 @@ func (c13) Gen(r *rand.Rand, tier string, run int) *core.Case {
 	}
 	if c.Batch == "phased" {
 		for k := 0; k < subs; k++ {
-			c.Ops = append(c.Ops, core.Op{Kind: "sub", Actor: k, X: int64(r.IntN(2)), Y: int64(r.IntN(conns))})
+			c.Ops = append(c.Ops, core.Op{Kind: "sub", Actor: k, X: int64(r.IntN(3)), Y: int64(r.IntN(conns))})
 		}
 		c.Ops = append(c.Ops, core.Op{Kind: "barrier"})
 		emit(2 + r.IntN(10))
@@ -94,7 +94,7 @@ func (c13) Gen(r *rand.Rand, tier string, run int) *core.Case {
 			if r.IntN(2) == 0 {
 				c.Ops = append(c.Ops, core.Op{Kind: "cancel", Actor: k})
 				if r.IntN(2) == 0 {
-					c.Ops = append(c.Ops, core.Op{Kind: "sub", Actor: k, X: int64(r.IntN(2)), Y: int64(r.IntN(conns))})
+					c.Ops = append(c.Ops, core.Op{Kind: "sub", Actor: k, X: int64(r.IntN(3)), Y: int64(r.IntN(conns))})
 				}
 			}
 		}
@@ -109,7 +109,7 @@ func (c13) Gen(r *rand.Rand, tier string, run int) *core.Case {
 		}
 		n := 1 + r.IntN(3)
 		for i := 0; i < n; i++ {
-			c.Ops = append(c.Ops, core.Op{Kind: "sub", Actor: k, X: int64(r.IntN(2)), Y: int64(conn)})
+			c.Ops = append(c.Ops, core.Op{Kind: "sub", Actor: k, X: int64(r.IntN(3)), Y: int64(conn)})
 			c.Ops = append(c.Ops, core.Op{Kind: "pause", Actor: k, X: int64(r.IntN(12))})
 			if i < n-1 || r.IntN(2) == 0 {
 				c.Ops = append(c.Ops, core.Op{Kind: "cancel", Actor: k})
@@ -119,6 +119,30 @@ func (c13) Gen(r *rand.Rand, tier string, run int) *core.Case {
 	}
 	emit(3 + r.IntN(20))
 	return c
+}
+
+// c13sigs are the signals of the scenario: tick, tock and the change events
+// of the property level. Emitted values tell them apart: tick n -> +n,
+// tock n -> -n, level n -> 1000000+n.
+var c13sigs = [3]uint32{SigTick, SigTock, PropLvl}
+
+func c13index(action uint32) (int, bool) {
+	for i, a := range c13sigs {
+		if a == action {
+			return i, true
+		}
+	}
+	return 0, false
+}
+
+func c13decode(v int32) (sig int, n int32) {
+	switch {
+	case v < 0:
+		return 1, -v
+	case v >= 1000000:
+		return 2, v - 1000000
+	}
+	return 0, v
 }
 
 type c13ev struct {
@@ -189,7 +213,7 @@ func (c13) Run(c *core.Case, env *core.Env) {
 	}
 	phases = append(phases, cur)
 	actorsState := map[int]*c13actor{}
-	counts := &[2]int32{}
+	counts := &[3]int32{}
 	for pi, ops := range phases {
 		by := map[int][]core.Op{}
 		var actors []int
@@ -210,15 +234,18 @@ func (c13) Run(c *core.Case, env *core.Env) {
 						for j := 0; j < int(op.Y); j++ {
 							zzsim.Yield("h.emit-pause")
 						}
-						sig := int(op.X) & 1
+						sig := int(op.X) % 3
 						counts[sig]++
 						n := counts[sig]
 						h := env.Invoke(50, "emit", fmt.Sprintf("sig%d n=%d", sig, n))
 						var err error
-						if sig == 0 {
+						switch sig {
+						case 0:
 							err = w.Impls[0].Helper.SignalTick(n)
-						} else {
+						case 1:
 							err = w.Impls[0].Helper.SignalTock(-n)
+						default:
+							err = w.Impls[0].Helper.UpdateLevel(1000000 + n)
 						}
 						env.Return(h, "", err)
 						st.mu.Lock()
@@ -281,14 +308,17 @@ func (as *c13actor) do(c *core.Case, env *core.Env, st *c13state, op core.Op, cl
 			}
 			p = as.proxies[conn]
 		}
-		rec := &c13sub{sub: a, sig: int(op.X) & 1, conn: conn}
+		rec := &c13sub{sub: a, sig: int(op.X) % 3, conn: conn}
 		h := env.Invoke(a, "subscribe", fmt.Sprintf("sig%d conn%d", rec.sig, conn))
 		var ch chan int32
 		var err error
-		if rec.sig == 0 {
+		switch rec.sig {
+		case 0:
 			as.cancel, ch, err = p.SubscribeTick()
-		} else {
+		case 1:
 			as.cancel, ch, err = p.SubscribeTock()
+		default:
+			as.cancel, ch, err = p.SubscribeLevel()
 		}
 		env.Return(h, "", err)
 		rec.ackCall, rec.ackRet, rec.err = h.Call, h.Ret, err
@@ -364,7 +394,7 @@ func (c13) Check(c *core.Case, env *core.Env, res zzsim.Result, v *core.Verdict)
 		return
 	}
 	const inf = int64(1) << 62
-	emitted := [2]map[int32]c13emit{{}, {}}
+	emitted := [3]map[int32]c13emit{{}, {}, {}}
 	for _, e := range st.emits {
 		emitted[e.sig][e.n] = e
 		if e.err != nil {
@@ -380,13 +410,13 @@ func (c13) Check(c *core.Case, env *core.Env, res zzsim.Result, v *core.Verdict)
 		ok         bool
 	}
 	type connWire struct {
-		regs      [2][]regReq
-		unregs    [2][]int64         // unregister requests: seq at which the client wrote them
-		lateEvent [2]map[int32]int64 // event n -> seq of the unregister ack it followed
-		evCount   [2]map[int32]int   // how often event n was sent on this connection
-		evRegs    [2]map[int32]int   // registrations of the signal on the connection when it was sent (max)
-		evAt      [2]map[int32][]int64
-		unregAcks [2][]int64 // unregister acknowledgements: seq at which the server wrote them
+		regs      [3][]regReq
+		unregs    [3][]int64         // unregister requests: seq at which the client wrote them
+		lateEvent [3]map[int32]int64 // event n -> seq of the unregister ack it followed
+		evCount   [3]map[int32]int   // how often event n was sent on this connection
+		evRegs    [3]map[int32]int   // registrations of the signal on the connection when it was sent (max)
+		evAt      [3]map[int32][]int64
+		unregAcks [3][]int64 // unregister acknowledgements: seq at which the server wrote them
 	}
 	wires := map[int]*connWire{}
 	conns := env.NW.Conns()
@@ -394,7 +424,7 @@ func (c13) Check(c *core.Case, env *core.Env, res zzsim.Result, v *core.Verdict)
 		if pair >= len(conns) {
 			continue
 		}
-		cw := &connWire{lateEvent: [2]map[int32]int64{{}, {}}, evCount: [2]map[int32]int{{}, {}}, evRegs: [2]map[int32]int{{}, {}}, evAt: [2]map[int32][]int64{{}, {}}}
+		cw := &connWire{lateEvent: [3]map[int32]int64{{}, {}, {}}, evCount: [3]map[int32]int{{}, {}, {}}, evRegs: [3]map[int32]int{{}, {}, {}}, evAt: [3]map[int32][]int64{{}, {}, {}}}
 		wires[ci] = cw
 		cc := conns[pair]
 		c2s, c2sMarks := cc.Sent()
@@ -417,10 +447,10 @@ func (c13) Check(c *core.Case, env *core.Env, res zzsim.Result, v *core.Verdict)
 				rd := ref.Rd{B: f.Payload}
 				rd.U32()
 				sig := rd.U32()
-				if sig != SigTick && sig != SigTock {
+				i, known := c13index(sig)
+				if !known {
 					continue
 				}
-				i := sig - SigTick
 				rq := req{f.Action == 0, sig, -1}
 				if f.Action == 0 {
 					rq.idx = len(cw.regs[i])
@@ -431,13 +461,13 @@ func (c13) Check(c *core.Case, env *core.Env, res zzsim.Result, v *core.Verdict)
 				byID[f.ID] = rq
 			}
 		}
-		count := [2]int{}
-		zeroAt := [2]int64{0, 0} // seq at which the last unregister ack was written
+		count := [3]int{}
+		zeroAt := [3]int64{0, 0, 0} // seq at which the last unregister ack was written
 		for _, f := range resps {
 			rq, known := byID[f.ID]
 			switch {
 			case (f.Type == ref.Reply || f.Type == ref.Error) && known && rq.sig != 0:
-				i := rq.sig - SigTick
+				i, _ := c13index(rq.sig)
 				if rq.register {
 					r := &cw.regs[i][rq.idx]
 					r.replyWrite = c13seqOf(s2cMarks, f.End)
@@ -454,14 +484,11 @@ func (c13) Check(c *core.Case, env *core.Env, res zzsim.Result, v *core.Verdict)
 						zeroAt[i] = c13seqOf(s2cMarks, f.End)
 					}
 				}
-			case f.Type == ref.Event && (f.Action == SigTick || f.Action == SigTock):
-				i := f.Action - SigTick
+			case f.Type == ref.Event && (f.Action == SigTick || f.Action == SigTock || f.Action == PropLvl):
+				i, _ := c13index(f.Action)
 				if len(f.Payload) == 4 {
 					rd := ref.Rd{B: f.Payload}
-					n := rd.I32()
-					if n < 0 {
-						n = -n
-					}
+					_, n := c13decode(rd.I32())
 					cw.evCount[i][n]++
 					// registrations acknowledged so far plus requests on their way
 					regs := count[i]
@@ -493,10 +520,7 @@ func (c13) Check(c *core.Case, env *core.Env, res zzsim.Result, v *core.Verdict)
 					continue
 				}
 				rd := ref.Rd{B: f.Payload}
-				n := rd.I32()
-				if n < 0 {
-					n = -n
-				}
+				_, n := c13decode(rd.I32())
 				cw.lateEvent[i][n] = zeroAt[i]
 				e, ok := emitted[i][n]
 				if ok && e.start < zeroAt[i] {
@@ -521,11 +545,7 @@ func (c13) Check(c *core.Case, env *core.Env, res zzsim.Result, v *core.Verdict)
 		var prev int32
 		first := true
 		for _, ev := range s.evs {
-			n := ev.val
-			sig := 0
-			if n < 0 {
-				sig, n = 1, -n
-			}
+			sig, n := c13decode(ev.val)
 			if sig != s.sig {
 				bad("foreign-signal", "%s received %d, an event of the other signal", name, ev.val)
 				continue
